@@ -28,6 +28,29 @@ type C12MarkUser struct {
 type c12CK struct {
 	Linked [][2]string `json:"linked"` // marks appended to the user
 	Delete [][2]string `json:"delete"` // marks named in Delete
+	// how the records are handed over: 0 = one []T, 1 = one *T per record, 2 = the first as *T and the others as one []T, 3 = one []*T
+	AShape int `json:"append_shape,omitempty"`
+	DShape int `json:"delete_shape,omitempty"`
+}
+
+func c12CKArgs(ms []C12Mark, shape int) []interface{} {
+	switch {
+	case shape == 1:
+		var out []interface{}
+		for i := range ms {
+			out = append(out, &ms[i])
+		}
+		return out
+	case shape == 2 && len(ms) > 1:
+		return []interface{}{&ms[0], ms[1:]}
+	case shape == 3:
+		var ps []*C12Mark
+		for i := range ms {
+			ps = append(ps, &ms[i])
+		}
+		return []interface{}{ps}
+	}
+	return []interface{}{ms}
 }
 
 type c12CKObs struct {
@@ -74,7 +97,7 @@ func c12RunCK(in c12CK) (links, mem []string, count int64, err error) {
 	}
 	links, mem = []string{}, []string{}
 	if len(ms) > 0 {
-		if e := db.Model(&u).Association("Marks").Append(ms); e != nil {
+		if e := db.Model(&u).Association("Marks").Append(c12CKArgs(ms, in.AShape)...); e != nil {
 			return nil, nil, 0, e
 		}
 	}
@@ -83,7 +106,7 @@ func c12RunCK(in c12CK) (links, mem []string, count int64, err error) {
 		del = append(del, C12Mark{A: k[0], B: k[1]})
 	}
 	if len(del) > 0 { // boundary, not judged: Delete() without values on a composite key renders `(a,b) IN (NULL)`, which SQLite rejects
-		if e := db.Model(&u).Association("Marks").Delete(del); e != nil {
+		if e := db.Model(&u).Association("Marks").Delete(c12CKArgs(del, in.DShape)...); e != nil {
 			return nil, nil, 0, e
 		}
 	}
@@ -168,14 +191,17 @@ func c12CKProbe() {
 	fmt.Println("ck probe:", l, m, c, err, "want", c12CKWant(in))
 }
 
-var c12CKAlphabet = []string{"a", "b", "c", "a_b", "b_c", "x y", "a_", "_b", "nil", "0"}
+// key parts: plain, containing the separator of utils.ToStringKey, differing only in letter case, with leading / trailing blanks,
+// numeric-looking, the words ToStringKey prints for zero values, non-ASCII (incl. pairs that a case-folding comparison would merge)
+var c12CKAlphabet = []string{"a", "b", "c", "a_b", "b_c", "x y", "a_", "_b", "nil", "0", "A", "B", " a", "a ", "1", "01", "é", "É", "ß", "ss"}
+var c12CKSafeAlphabet = []string{"a", "b", "c", "x y", "nil", "0", "ab", "A", "B", "AB", "aB", " a", "a ", "1", "01", "1.0", "é", "É", "ß", "ss", "SS", "ı", "I", "i"}
 
 func c12GenCK(rng *rand.Rand, safe bool) c12CK {
 	alpha := c12CKAlphabet
 	if safe {
-		alpha = []string{"a", "b", "c", "x y", "nil", "0", "ab"}
+		alpha = c12CKSafeAlphabet
 	}
-	in := c12CK{Linked: [][2]string{}, Delete: [][2]string{}}
+	in := c12CK{Linked: [][2]string{}, Delete: [][2]string{}, AShape: rng.Intn(4), DShape: rng.Intn(4)}
 	for i, n := 0, 1+rng.Intn(4); i < n; i++ {
 		in.Linked = append(in.Linked, [2]string{alpha[rng.Intn(len(alpha))], alpha[rng.Intn(len(alpha))]})
 	}
@@ -183,6 +209,25 @@ func c12GenCK(rng *rand.Rand, safe bool) c12CK {
 		x, y, z := alpha[rng.Intn(3)], alpha[rng.Intn(3)], alpha[rng.Intn(3)]
 		in.Linked = append(in.Linked, [2]string{x + "_" + y, z}, [2]string{x, y + "_" + z})
 		rng.Shuffle(len(in.Linked), func(i, j int) { in.Linked[i], in.Linked[j] = in.Linked[j], in.Linked[i] })
+	}
+	if rng.Intn(2) == 0 { // a pair of keys that differ only in letter case / by a blank, in one call
+		b := in.Linked[rng.Intn(len(in.Linked))]
+		tw := b
+		j := rng.Intn(2)
+		switch rng.Intn(4) {
+		case 0:
+			tw[j] = strings.ToUpper(b[j])
+		case 1:
+			tw[j] = b[j] + " "
+		case 2:
+			tw[j] = " " + b[j]
+		default:
+			tw[j] = strings.ToLower(b[j])
+		}
+		in.Linked = append(in.Linked, tw)
+		if rng.Intn(2) == 0 {
+			in.Delete = append(in.Delete, b, tw)
+		}
 	}
 	if rng.Intn(4) == 0 {
 		in.Linked = append(in.Linked, in.Linked[rng.Intn(len(in.Linked))]) // duplicate target in one call
